@@ -5,6 +5,22 @@ HERE = os.path.dirname(os.path.dirname(os.path.abspath(__file__)))
 ALL = ["C%02d" % i for i in range(1, 21)]
 
 CHECKS = {
+ "C07": dict(
+  category="model_checking",
+  text="DocTrans.tla: the doctrans pipeline as one action per step (read, ast parse, transform, compare, cst parse, replace, write) "
+       "with a fault enabled before every step; programs of 1..2 definitions (function / async / method / nested / class x 8 "
+       "signature shapes x docstring none/rest/google/numpydoc x block or one-line body) x 6 configurations x 7 fault points; TLC "
+       "checks SameProgram, OthersUntouched, AtomicOnError and SingleWrite over ~102k behaviours (~500k states). Binding: every "
+       "behaviour (seeded 2400 in quick; all 1-definition + 30000 2-definition in thorough) is rendered to real source with comments "
+       "and unrelated statements around; the real doctrans runs in-process under the audit-hook recorder, faults are injected by "
+       "wrapping the pipeline's callees; verdicts on the real file: still valid Python; AST identical once docstrings, parameter / "
+       "return / variable annotations and type comments are erased; all comments still present in order; every line that is not "
+       "a definition header, a docstring or an annotated assignment byte-identical; on failure the file byte-identical; at most "
+       "one write and nothing else touched.",
+  design_ref="DESIGN.md section 4, C07",
+  note="Trusted: the program renderer, the AST eraser and the header/docstring line classifier of the harness.",
+  technique="TLA+ pipeline model with crash points checked by TLC; every behaviour replayed through the real command with fault "
+            "injection, judged by AST/tokenize/byte comparison and audit events"),
  "C12": dict(
   category="model_checking",
   text="Sync.tla: three files (class, method inside a class, argparse function), each missing / empty / holding one of three "
@@ -276,7 +292,7 @@ CHECKS = {
             "replayed in fresh interpreters"),
 }
 
-NOT_YET = "check not built yet (framework under construction; planned per DESIGN.md section 4)"
+NOT_YET = "(unused) check not built yet (framework under construction; planned per DESIGN.md section 4)"
 
 def main():
     m = {
